@@ -3,6 +3,18 @@
 import json, subprocess, os
 ALL = ["C%02d" % i for i in range(1, 21)]
 CHECKS = {
+ "C01": dict(cat="model_checking", tech="TLA+ transcription of the Burns cascade (WaterFn/Water.tla, TLC exhaustive on a 3-layer grid) + kernel replay (TLC evaluates the model's Step on inputs logged from the real Water()) + trace validation of whole generated runs (sub-step and day ledgers in two-limb fixed point)",
+   text="Design level: Water.tla explores every state of a 3-layer cascade grid (quick 3.8e5, thorough >4e6 states) with Balance/DayCovers. Conformance: (a) the real Water() is driven over a seeded sample of the same grid and TLC checks the ledger on its outputs and equality with the model (drift 0 = the model is bound); (b) generated projects (1-20 layers, stones up to 95 %, drains, shallow groundwater, five ET methods, heavy-tail rain up to >1000 sub-steps per day, irrigation, measurement overwrite) are run through the real day loop with probes; TLC validates, for every sub-step and day of every run, the ledger equations (1e-9 cm), the sub-step chain, sub-step count and coverage of the day, hand-over between days and the reported percolation/capillary/drain counters.",
+   note="Trusted: TLC + Json module, the worker's exact big-float projection to 1e-12 cm limbs, probe placement (guard verif). Constant groundwater and non-overwrite days for the day-to-day hand-over, as the property quantifies.", ref="§8 C01"),
+ "C06": dict(cat="model_checking", tech="TLA+ cascade model invariants Upper/Lower (TLC exhaustive) + kernel replay of the real Water() + trace validation of generated runs incl. reflection scan of every float of the state and NaN/Inf scan of the result files",
+   text="Design level: Water.tla invariants Upper (capacity plus tabulated capillary increment) and Lower (dryness limit once above it) on the exhaustive grid. Conformance: the same bounds are evaluated by TLC on the real Water() outputs over the grid sample and on every sub-step of generated runs with constant, sinusoidal and time-series groundwater, droughts, 300 mm days and shallow peat profiles; the specification recomputes the capillary-rise layer and increment from logged flags and the CAPS table. Finite: every projected value, every float field of the state struct at each day end and every token of the result files.",
+   note="Trusted: as C01; 2e-9 slack for single-limb projections of water contents.", ref="§8 C06"),
+ "C08": dict(cat="model_checking", tech="TLA+ cascade model invariant UptakeAvail (TLC exhaustive) + kernel replay + trace validation of generated runs for all five ET methods (cold, polar, no-radiation arms)",
+   text="Design level: uptake clamp of Water.tla on the exhaustive grid. Conformance: on every day of generated runs (ET methods 1-5 cycled, mean temperatures down to -35 C, latitudes +-78, sunshine instead of radiation, droughts, shallow groundwater) TLC checks 0 <= potential ET <= 0.65/0.60 cm, actual evaporation and uptake non-negative, evaporation + uptake <= potential (limb arithmetic, 1e-9 cm), no uptake below rooting depth or groundwater, uptake <= plant-available water after the clamp, stress ratios in [0,1].",
+   note="Trusted: as C01; 'under a crop' is taken as the ET routine decides it; potential ET is the increment of the cumulative counter across the routine.", ref="§8 C08"),
+ "C19": dict(cat="model_checking", tech="TLA+ explicit-diffusion model in exact rationals (SoilTemp.tla, TLC exhaustive; unstable diffusion number refuted as control) + kernel replay of the real Soiltemp() over a parameter grid + trace validation of generated runs",
+   text="Design level: SoilTemp.tla keeps the code's staging (surface written to the next array, 24->H inner steps, fixed lower boundary); Envelope holds for all diffusion numbers <= 1/2 and TLC refutes it for 3/4 (control run on every check). Conformance: the real Soiltemp() is driven over bulk density 0.8-1.9 x humus 0-17 % x water content 0.005-0.7 x depth x LAI with seeded weather (-35..45 C), and every day of generated runs; TLC keeps the envelope (initial profile, lower boundary, every imposed surface value) and checks every layer, the diffusion number r <= 1/2 and the held lower boundary.",
+   note="Trusted: as C01; tolerance 2e-6 C; grid-exhaustive, nothing is claimed between grid points.", ref="§8 C19"),
  "C12": dict(cat="model_checking", tech="TLA+ successor-machine calendar (TLC exhaustive, 72 684 states) + trace validation of the real converters over every day/format/separator/century split",
    text="Design level: TLC checks the literal transcription of the code's closed forms against a successor-machine calendar on all 72 684 days. Conformance: the real DateConverter/KalenderConverter/KalenderDate are driven over every calendar day for all four formats, with and without separator (quick: long formats in full + 4 century splits; thorough: all 101 splits) and TLC validates every line against the machine (number, day of year, back conversion, rendered text, leap days). Exhaustive enumeration of a finite domain is the right level for a total function on 72 684 dates.",
    note="Trusted: TLC + Json module, Go toolchain, the worker's fixed-position split of rendered date text into three integers. The worker's own calendar (Go time package) is itself checked against the machine.", ref="§8 C12"),
